@@ -32,15 +32,37 @@ type fieldT struct {
 	mapKey   string // != "": a map field `map<mapKey, scalar|ref> name = n;` (synthetic <Name>Entry nested message)
 	group    *msgT  // != nil: a proto2 group `label group <group.name> = n { … }`; name == lower(group.name),
 	// the declaration's comment belongs to the nested message (group.comment), the field has none
+	noise []string // explicit-default options no lint rule reads: `[deprecated = false, …]`
+	// presence: editions files only — `[features.field_presence = <presence>]`: "" (not spelled),
+	// "EXPLICIT" (the default, spelled out), "IMPLICIT", "LEGACY_REQUIRED" (= a required field)
+	presence string
 }
 
-func (f *fieldT) isMap() bool   { return f.mapKey != "" }
+func (f *fieldT) isMap() bool { return f.mapKey != "" }
+func (f *fieldT) isRequired() bool {
+	return f.label == "required" || f.presence == "LEGACY_REQUIRED"
+}
+
+// bracketOptions: what stands between `[` and `]` after the field number.
+func (f *fieldT) bracketOptions() []string {
+	var out []string
+	if f.presence != "" {
+		out = append(out, "features.field_presence = "+f.presence)
+	}
+	return append(out, f.noise...)
+}
+
+// p3like: proto3 and editions files share the generator's conventions (no labels but `repeated`,
+// no groups, open enums whose first value is zero).
+func (f *fileT) p3like() bool { return f.syntax == "proto3" || f.syntax == "editions" }
+
 func (f *fieldT) isGroup() bool { return f.group != nil }
 
 type valueT struct {
 	name    string
 	comment []string
 	number  int
+	noise   []string // `[deprecated = false]`
 }
 
 type enumT struct {
@@ -49,6 +71,10 @@ type enumT struct {
 	comment    []string
 	detached   bool
 	allowAlias bool
+	// aliasFalse: the enum spells the DEFAULT out, `option allow_alias = false;` — the option is
+	// present (has a location) but its value is what ENUM_NO_ALLOW_ALIAS demands
+	aliasFalse bool
+	noise      []string // further explicit-default option statements (`option deprecated = false;`)
 	values     []valueT
 }
 
@@ -66,8 +92,9 @@ type msgT struct {
 	exts        []fieldT
 	enums       []enumT
 	msgs        []msgT
-	nestedFirst bool // render nested types before the fields
-	extRange    bool // proto2: declares `extensions 1000 to max;` (may be the extendee of extension fields)
+	nestedFirst bool     // render nested types before the fields
+	extRange    bool     // proto2: declares `extensions 1000 to max;` (may be the extendee of extension fields)
+	noise       []string // explicit-default option statements (`option deprecated = false;`)
 }
 
 // nestedItem is one entry of the message's nested_type list in DESCRIPTOR order: the compiler
@@ -131,13 +158,15 @@ type rpcT struct {
 	comment  []string
 	in, out  ref
 	cs, ss   bool
-	dottedIn bool // render the request type with a leading dot
+	dottedIn bool     // render the request type with a leading dot
+	noise    []string // option statements in the method body (`option idempotency_level = IDEMPOTENCY_UNKNOWN;`)
 }
 
 type svcT struct {
 	name    string
 	comment []string
 	rpcs    []rpcT
+	noise   []string // `option deprecated = false;`
 }
 
 type impT struct {
@@ -154,7 +183,8 @@ type fileT struct {
 	isImport bool
 	syntax   string // "proto3", "proto2", "" (= unspecified, parsed as proto2)
 	imports  []impT
-	opts     [7]string
+	opts     [7]optT
+	noise    []string // file options no lint rule reads, spelled with their default value
 	enums    []enumT
 	msgs     []msgT
 	svcs     []svcT
@@ -164,6 +194,23 @@ type fileT struct {
 
 type wsT struct {
 	files []*fileT
+}
+
+// optT is one of the seven file options of PACKAGE_SAME_*: whether the file has the option
+// STATEMENT, and the value written there (java_multiple_files: "true"/"false"; the string
+// options: the string, possibly empty — `option go_package = "";`).
+type optT struct {
+	set bool
+	val string
+}
+
+func unsetOpt() optT       { return optT{} }
+func setOpt(v string) optT { return optT{true, v} }
+func (o optT) String() string {
+	if !o.set {
+		return "unset"
+	}
+	return fmt.Sprintf("%q", o.val)
 }
 
 var optNames = [7]string{"csharp_namespace", "go_package", "java_multiple_files", "java_package", "php_namespace", "ruby_package", "swift_prefix"}
@@ -309,7 +356,7 @@ func (s *ser) field(f fieldT, proto3 bool, oneofIndex int) {
 	} else {
 		s.h(leadingText(f.comment))
 	}
-	s.b(f.label == "required")
+	s.b(f.isRequired())
 	s.b(f.isGroup())
 	s.b(proto3 && f.label == "optional") // extensions too: no synthetic oneof, but proto3_optional is set
 	s.n(oneofIndex)
@@ -419,7 +466,11 @@ func (w *wsT) serialise() string {
 			s.b(i.unused)
 		}
 		for _, o := range f.opts {
-			s.h(o)
+			if o.set {
+				s.h(o.val) // "-" = explicitly the empty string
+			} else {
+				s.t("~") // no option statement
+			}
 		}
 		s.n(len(f.enums))
 		for _, e := range f.enums {
@@ -534,7 +585,11 @@ func (r *renderer) field(ind, path string, f fieldT) {
 	}
 	r.write(r.typeName(f) + " ")
 	r.tok(path+".1", f.name)
-	r.write(" = " + strconv.Itoa(f.number) + ";")
+	r.write(" = " + strconv.Itoa(f.number))
+	if opts := f.bracketOptions(); len(opts) > 0 {
+		r.write(" [" + strings.Join(opts, ", ") + "]")
+	}
+	r.write(";")
 	r.mark(path, sl, sc)
 	r.write("\n")
 }
@@ -570,10 +625,18 @@ func (r *renderer) enum(ind, path string, e enumT) {
 	r.write("enum ")
 	r.tok(path+".1", e.name)
 	r.write(" {\n")
-	if e.allowAlias {
+	switch {
+	case e.allowAlias:
 		r.write(ind + "  ")
 		r.tok(path+".3.2", "option allow_alias = true;")
 		r.write("\n")
+	case e.aliasFalse:
+		r.write(ind + "  ")
+		r.tok(path+".3.2", "option allow_alias = false;")
+		r.write("\n")
+	}
+	for _, n := range e.noise {
+		r.write(ind + "  " + n + "\n")
 	}
 	for i, v := range e.values {
 		vp := pk(path, 2, i)
@@ -583,6 +646,9 @@ func (r *renderer) enum(ind, path string, e enumT) {
 		r.tok(vp+".1", v.name)
 		r.write(" = ")
 		r.tok(vp+".2", strconv.Itoa(v.number))
+		if len(v.noise) > 0 {
+			r.write(" [" + strings.Join(v.noise, ", ") + "]")
+		}
 		r.write(";")
 		r.mark(vp, vsl, vsc)
 		r.write("\n")
@@ -670,6 +736,9 @@ func (r *renderer) msg(ind, path string, m msgT) {
 	r.write("message ")
 	r.tok(path+".1", m.name)
 	r.write(" {\n")
+	for _, n := range m.noise {
+		r.write(ind + "  " + n + "\n")
+	}
 	if m.nestedFirst {
 		r.msgNested(ind, path, m)
 		r.msgFields(ind, path, m)
@@ -692,6 +761,9 @@ func (r *renderer) svc(path string, s svcT) {
 	r.write("service ")
 	r.tok(path+".1", s.name)
 	r.write(" {\n")
+	for _, n := range s.noise {
+		r.write("  " + n + "\n")
+	}
 	for i, m := range s.rpcs {
 		mp := pk(path, 2, i)
 		r.comment("  ", m.comment, false)
@@ -713,7 +785,15 @@ func (r *renderer) svc(path string, s svcT) {
 			r.write("stream ")
 		}
 		r.tok(mp+".3", "."+r.w.fullName(m.out))
-		r.write(");")
+		if len(m.noise) == 0 {
+			r.write(");")
+		} else {
+			r.write(") {\n")
+			for _, n := range m.noise {
+				r.write("    " + n + "\n")
+			}
+			r.write("  }")
+		}
 		r.mark(mp, msl, msc)
 		r.write("\n")
 	}
@@ -726,7 +806,11 @@ func (r *renderer) svc(path string, s svcT) {
 func render(w *wsT, f *fileT) (string, map[string]span) {
 	r := &renderer{line: 1, col: 1, spans: map[string]span{}, w: w, f: f}
 	r.write("// Generated by the C05 harness.\n\n")
-	if f.syntax != "" {
+	switch f.syntax {
+	case "":
+	case "editions":
+		r.write("edition = \"2023\";\n\n")
+	default:
 		r.write("syntax = \"" + f.syntax + "\";\n\n")
 	}
 	if f.pkg != "" {
@@ -744,16 +828,19 @@ func render(w *wsT, f *fileT) (string, map[string]span) {
 		r.write("\n")
 	}
 	r.write("\n")
-	for k, v := range f.opts {
-		if v == "" {
+	for k, o := range f.opts {
+		if !o.set {
 			continue
 		}
-		val := "\"" + v + "\""
+		val := "\"" + o.val + "\""
 		if k == 2 {
-			val = v
+			val = o.val
 		}
 		r.tok(pk("8", optFieldNumbers[k]), "option "+optNames[k]+" = "+val+";")
 		r.write("\n")
+	}
+	for _, n := range f.noise {
+		r.write(n + "\n")
 	}
 	for _, kind := range f.order {
 		switch kind {
